@@ -122,6 +122,11 @@ def m_len(it, v):
         return SInt(v.length) if not isinstance(v.length, int) else v.length
     if type(v).__name__ in ("MPBytes", "MPTrunc"):
         return SInt(v.length) if not isinstance(v.length, int) else v.length
+    if type(v).__name__ == "BCat":
+        from .files import length_of
+
+        n = length_of(v)
+        return SInt(n) if not isinstance(n, int) else n
     if isinstance(v, Sym):
         raise Unsupported(f"len of {v!r}")
     try:
